@@ -303,8 +303,20 @@ func genWild(t *rapid.T) *vmsg.Spec {
 	return s
 }
 
+// boundaryLen draws lengths around the sizes the decoders branch on (signature 256, envelope header 264, SSZ fixed parts).
+func boundaryLen(t *rapid.T) int {
+	base := rapid.SampledFrom([]int{0, 4, 8, 56, 60, 64, 96, 256, 264, 324, 512}).Draw(t, "blen")
+	return base + rapid.IntRange(-2, 9).Draw(t, "bdelta")
+}
+
 func genInput(t *rapid.T) Input {
 	switch rapid.IntRange(0, 9).Draw(t, "inkind") {
+	case 1:
+		n := boundaryLen(t)
+		if n < 0 {
+			n = 0
+		}
+		return Input{Raw: rapid.SliceOfN(rapid.Byte(), n, n).Draw(t, "braw"), RawTopic: commons.Topics()[rapid.IntRange(0, 127).Draw(t, "brawtopic")]}
 	case 0:
 		return Input{Raw: rapid.SliceOfN(rapid.Byte(), 0, rapid.SampledFrom([]int{4, 70, 300, 1200}).Draw(t, "rawmax")).Draw(t, "raw"),
 			RawTopic: commons.Topics()[rapid.IntRange(0, 127).Draw(t, "rawtopic")]}
@@ -318,6 +330,99 @@ func gen(t *rapid.T) Prog {
 }
 
 func TestPropValidateNoCrash(t *testing.T) { prog.Check(t, "C08", "TestPropValidateNoCrash", gen, run) }
+
+// ---- concurrent validation must not hang -----------------------------------------------------------------
+
+type ConcProg struct {
+	Signed  bool        `json:"signed"`
+	Specs   []vmsg.Spec `json:"specs"`
+	Workers int         `json:"workers"`
+}
+
+// runConc validates the inputs from several goroutines at once (same and different message ids). A hang is judged
+// structurally: after a generous wait every unfinished worker must be parked on a mutex inside message validation.
+func runConc(p ConcProg) *prog.Result {
+	res := &prog.Result{NonTrivial: len(p.Specs) >= 2}
+	env := valfx.NewEnv(p.Signed)
+	type in struct {
+		topic string
+		data  []byte
+		recv  time.Time
+	}
+	var ins []in
+	for i := range p.Specs {
+		tp, d, r := p.Specs[i].Build(env, p.Signed)
+		ins = append(ins, in{tp, d, r})
+	}
+	done := make(chan string, len(ins)*p.Workers)
+	start := make(chan struct{})
+	total := 0
+	for w := 0; w < p.Workers; w++ {
+		for _, x := range ins {
+			total++
+			go func(x in) {
+				<-start
+				r := prog.Guard(func() *prog.Result {
+					validation.ValidateP2PMessageAt(env.MV, valfx.PMsg(x.topic, x.data), x.recv)
+					return &prog.Result{}
+				})
+				if r.Fail != nil {
+					done <- r.Fail.Sig + "\n" + r.Fail.Msg
+				} else {
+					done <- ""
+				}
+			}(x)
+		}
+	}
+	close(start)
+	deadline := time.After(20 * time.Second)
+	for got := 0; got < total; got++ {
+		select {
+		case f := <-done:
+			if f != "" {
+				res.Fail = prog.Failf("C08:panic-under-concurrency", "%s", f)
+				return res
+			}
+		case <-deadline:
+			buf := make([]byte, 1<<20)
+			st := string(buf[:runtime.Stack(buf, true)])
+			parked := strings.Count(st, "message/validation.(*messageValidator)") > 0 && (strings.Contains(st, "sync.(*Mutex).Lock") || strings.Contains(st, "sync.(*RWMutex)"))
+			if parked {
+				res.Fail = prog.Failf("C08:validation-hang", "%d of %d concurrent validations returned no verdict within 20 s; unfinished goroutines are parked on a mutex inside message validation:\n%s", total-got, total, firstStacks(st))
+			} else {
+				res.Discard = true // slow machine, not a structural hang
+			}
+			return res
+		}
+	}
+	return res
+}
+
+func firstStacks(st string) string {
+	var out []string
+	for _, g := range strings.Split(st, "\n\n") {
+		if strings.Contains(g, "message/validation") {
+			out = append(out, g)
+		}
+		if len(out) == 3 {
+			break
+		}
+	}
+	return strings.Join(out, "\n\n")
+}
+
+func genConc(t *rapid.T) ConcProg {
+	p := ConcProg{Signed: rapid.Bool().Draw(t, "signed"), Workers: rapid.IntRange(2, 4).Draw(t, "workers")}
+	n := rapid.IntRange(2, 6).Draw(t, "nspecs")
+	for i := 0; i < n; i++ {
+		p.Specs = append(p.Specs, *genSpec(t))
+	}
+	return p
+}
+
+func TestPropValidateConcurrentNoHang(t *testing.T) {
+	prog.Check(t, "C08", "TestPropValidateConcurrentNoHang", genConc, runConc)
+}
 
 // ---- decoders -------------------------------------------------------------------------------------
 
@@ -439,6 +544,12 @@ func genDec(t *rapid.T) DecProg {
 		}
 	case structured && p.Target == "subnets":
 		p.Data = []byte(rapid.StringMatching(`(0x)?[0-9a-fA-Fg]{0,40}`).Draw(t, "hex"))
+	case rapid.IntRange(0, 2).Draw(t, "bl") == 0:
+		n := boundaryLen(t)
+		if n < 0 {
+			n = 0
+		}
+		p.Data = rapid.SliceOfN(rapid.Byte(), n, n).Draw(t, "bdata")
 	default:
 		p.Data = rapid.SliceOfN(rapid.Byte(), 0, rapid.SampledFrom([]int{3, 40, 300, 2000}).Draw(t, "max")).Draw(t, "data")
 	}
@@ -487,6 +598,7 @@ func FuzzDecoders(f *testing.F) {
 func TestReplay(t *testing.T) {
 	prog.Replay(t, "C08", "TestPropValidateNoCrash", run)
 	prog.Replay(t, "C08", "TestPropDecodersNoCrash", runDec)
+	prog.Replay(t, "C08", "TestPropValidateConcurrentNoHang", runConc)
 }
 
 var _ = os.Getenv
